@@ -2,7 +2,7 @@ use crate::json::J;
 use rustc_hir as hir;
 use rustc_hir::def::{CtorOf, DefKind, Res};
 use rustc_hir::def_id::{DefId, LocalDefId};
-use rustc_middle::ty::print::{with_crate_prefix, with_no_trimmed_paths};
+use rustc_middle::ty::print::{with_crate_prefix, with_no_trimmed_paths, with_no_visible_paths};
 use rustc_middle::ty::{self, Ty, TyCtxt, TypeckResults};
 use rustc_span::{ExpnKind, Span};
 
@@ -37,11 +37,11 @@ pub struct Cx<'tcx> {
 
 impl<'tcx> Cx<'tcx> {
     pub fn path(&self, did: DefId) -> String {
-        let s = with_crate_prefix!(with_no_trimmed_paths!(self.tcx.def_path_str(did)));
+        let s = with_no_visible_paths!(with_crate_prefix!(with_no_trimmed_paths!(self.tcx.def_path_str(did))));
         fix_crate(s, &self.krate)
     }
     pub fn ty(&self, t: Ty<'tcx>) -> String {
-        let s = with_crate_prefix!(with_no_trimmed_paths!(t.to_string()));
+        let s = with_no_visible_paths!(with_crate_prefix!(with_no_trimmed_paths!(t.to_string())));
         fix_crate(s, &self.krate)
     }
     pub fn adt_of(&self, t: Ty<'tcx>) -> Option<String> {
@@ -212,7 +212,7 @@ fn dump_owner<'tcx>(cx: &Cx<'tcx>, j: &mut J, owner: LocalDefId, dk: DefKind) {
             let tr = tr.instantiate_identity().skip_norm_wip();
             j.kstr("impl_trait", &cx.path(tr.def_id));
             j.kstr("impl_trait_ref", &fix_crate(
-                with_crate_prefix!(with_no_trimmed_paths!(tr.to_string())),
+                with_no_visible_paths!(with_crate_prefix!(with_no_trimmed_paths!(tr.to_string()))),
                 &cx.krate,
             ));
         }
